@@ -61,6 +61,9 @@ def get_subscript(ip, st, obj, idx):
         d = obj.d if isinstance(obj, DRef) else obj
         return dict_get(ip, st, d, idx, None, strict=True)
     if isinstance(obj, LRef):
+        if Q.is_nested(obj.seq) and not isinstance(idx, (SSlice, slice)):
+            # a row of a nested list (rows are held by value): a view that writes back into its slot
+            return Q.RowRef(obj, norm_index(st, idx, Q.seq_len(obj.seq), "list index out of range"))
         r = get_subscript(ip, st, obj.seq, idx)
         if isinstance(idx, (SSlice, slice)):
             return LRef(r)
@@ -207,6 +210,8 @@ def list_setitem(ip, st, lref: LRef, idx, v):
     s = lref.seq
     n = Q.seq_len(s)
     if isinstance(idx, (SSlice, slice)):
+        if Q.is_nested(s):
+            raise Unsupported("slice assignment on a nested list")
         if isinstance(idx, slice):
             idx = SSlice(idx.start, idx.stop, idx.step)
         vs = ip.iter_view(st, st.force(v))
@@ -235,6 +240,8 @@ def list_setitem(ip, st, lref: LRef, idx, v):
         lref.seq = SSeq(n, getter, base.shape, None, "xset")
         return
     k = norm_index(st, idx, n, "list assignment index out of range")
+    if Q.is_nested(s):
+        v = Q.row_value(v)
     lref.seq = Q.seq_update(s, k, v)
 
 
@@ -269,9 +276,11 @@ def list_method(ip, st, lref: LRef, name, args, kwargs):
     s = lref.seq
     n = Q.seq_len(s)
     if name == "append":
-        lref.seq = Q.seq_append(s, args[0])
+        lref.seq = Q.seq_append(s, Q.row_value(args[0]) if Q.is_nested(s) else args[0])
         return None
     if name == "extend" or name == "__iadd__":
+        if Q.is_nested(s):
+            raise Unsupported("extend of a nested list")
         vs = ip.iter_view(st, st.force(args[0]))
         if isinstance(vs, LRef):
             vs = vs.seq
@@ -280,7 +289,7 @@ def list_method(ip, st, lref: LRef, name, args, kwargs):
     if name == "insert":
         i = st.force(args[0])
         k = ite(V._cmp("<", i, 0), imax(i + n, 0), imin(i, n))
-        lref.seq = Q.seq_insert(s, k, args[1])
+        lref.seq = Q.seq_insert(s, k, Q.row_value(args[1]) if Q.is_nested(s) else args[1])
         return None
     if name == "pop":
         i = st.force(args[0]) if args else -1
@@ -290,6 +299,8 @@ def list_method(ip, st, lref: LRef, name, args, kwargs):
         k = norm_index(st, i, n, "pop index out of range")
         v = Q.seq_get(s, k)
         lref.seq = Q.seq_delete1(s, k, k + 1)
+        if Q.is_nested(s):
+            v = LRef(v)  # the popped row: a detached list (rows are never shared between slots)
         return v
     if name == "clear":
         lref.seq = ()
